@@ -7,6 +7,7 @@ from .. import paths
 from ..core import FUNC, call_attr, calls_in, const, dotted, is_const, kwarg, norm, slice_parts, text, walk_local
 
 EXPLANATION = [
+    'C17.loop-containment: the per-result try of HfProtocol.run re-raises only HfLoopTermination and contains every other Exception.',
     'C17.overflow-recovers: the overflow branch of HfpProtocol.feed resets self.buffer (a full buffer that only refuses data never empties again).',
     'C17.continuation-kept: the parse-failure branch of sdp.Server.on_pdu does not assign current_response(s): garbage between continuation requests does not cost the transaction.',
     'C17.unhandled-rejected: ChannelManager.on_control_frame sends a Command Reject on every path on which no handler was found.',
@@ -1308,7 +1309,27 @@ def overflow_recovers(ctx):
         R.check(bool(in_branch), rule, 'bumble.hfp.HfpProtocol.feed | overflow path', 'the buffer is reset on overflow', 'the overflow branch leaves the full buffer as it is: from then on every chunk is refused, including the line end that would have emptied it - no AT line is ever delivered again on that connection', p.loc(i_))
 
 
+def loop_containment(ctx):
+    """HfProtocol.run keeps handling unsolicited results whatever one of them provokes: only the dedicated termination
+    signal (HfLoopTermination) is let through by the per-result try - not its base class HfpProtocolError, which a refused
+    command inside a handler raises as well."""
+    R, p = ctx.r, ctx.p
+    rule = 'C17.loop-containment'
+    fn = p.find('bumble.hfp.HfProtocol.run')
+    if fn is None:
+        R.bad(rule, 'bumble.hfp.HfProtocol.run', 'anchor missing')
+        return
+    loops = [w for w in walk_local(fn) if isinstance(w, ast.While)]
+    tries = [t for w in loops for t in w.body if isinstance(t, ast.Try)]
+    R.check(len(tries) == 1, rule, 'bumble.hfp.HfProtocol.run | per-result try', 'one', f'{len(tries)} found', p.loc(fn))
+    for t in tries:
+        through = [norm(h.type).split('.')[-1] for h in t.handlers if h.type is not None and any(isinstance(x, ast.Raise) and x.exc is None for x in h.body)]
+        contained = any(h.type is not None and norm(h.type).split('.')[-1] == 'Exception' and not any(isinstance(x, ast.Raise) for x in ast.walk(h)) for h in t.handlers)
+        R.check(contained and set(through) <= {'HfLoopTermination'}, rule, 'bumble.hfp.HfProtocol.run | what ends the loop', f're-raises only {through}', f'the per-result try lets {through} through: a command the gateway refuses from inside a result handler ends the loop for good - later RING / +CIEV results are queued and never handled', p.loc(t))
+
+
 RULES = [
+    ('C17.loop-containment', loop_containment),
     ('C17.overflow-recovers', overflow_recovers),
     ('C17.continuation-kept', continuation_kept),
     ('C17.unhandled-rejected', unhandled_rejected),
